@@ -152,10 +152,22 @@ def catch_tables():
             out.append("| %s | %s | %s | %s |" % (r['name'], r['prop'], r['verdict'], obs))
         return '\n'.join(out)
     seeds = table(t.get('seeds', []))
-    for r in t.get('seeds', []):
-        meta = os.path.join(HERE, r['name'], 'meta.json')
     muts = table(t.get('mutants', []))
     return seeds, muts
+
+
+def also_check_sentence():
+    rows = []
+    sd = os.path.join(HERE, 'seeded')
+    for n in sorted(os.listdir(sd)):
+        mp = os.path.join(sd, n, 'meta.json')
+        if os.path.exists(mp):
+            m = json.load(open(mp))
+            if m.get('also_check'):
+                rows.append("%s: %s" % (n, ', '.join(m['also_check'])))
+    total = len([n for n in os.listdir(sd) if os.path.exists(os.path.join(sd, n, 'patch.diff'))])
+    return ("%d changes are kept. A change whose violation belongs to a neighbouring property is also run against that property's check (`also_check` in its meta.json; "
+            "the table row says which check reported it): %s." % (total, '; '.join(rows)))
 
 
 def main():
@@ -169,7 +181,7 @@ def main():
     out = (tpl.replace('{{SUMMARY_TABLE}}', summary_table(mods)).replace('{{PER_PROPERTY}}', per_property(mods, known))
            .replace('{{NOT_APPLICABLE}}', na_txt).replace('{{FIXES}}', fixes(known)).replace('{{KNOWN}}', known_section(known))
            .replace('{{FALSE_ALARMS}}', fa).replace('{{CATCH_SEEDS}}', seeds).replace('{{CATCH_MUTANTS}}', muts)
-           .replace('{{STRENGTHENED}}', NOTES['strengthened'])
+           .replace('{{STRENGTHENED}}', NOTES['strengthened']).replace('{{ALSO_CHECK}}', also_check_sentence())
            .replace('{{N_FIXES}}', str(sum(1 for l in subprocess.run(['git', '-C', '/repo', 'log', '--format=%s'], capture_output=True, text=True).stdout.splitlines() if l.startswith('fix:'))))
            .replace('{{N_KNOWN}}', str(sum(1 for k in known['findings'] if k.get('status', 'open') == 'open'))))
     open(os.path.join(HERE, 'DESIGN.md'), 'w').write(out)
